@@ -412,7 +412,7 @@ impl CaseDriver for C16 {
         }
     }
     fn bound(&self, tier: Tier) -> usize {
-        tier.pick(2, 4)
+        tier.pick(2, 3)
     }
     fn gen(&self, _tier: Tier, c: &mut Chooser) -> Case {
         let first_kind = c.free(3, "first-shape-kind");
